@@ -214,7 +214,9 @@ UnionTypes == { TUnion(<<TInt, TFloat>>), TUnion(<<TFloat, TInt>>), TUnion(<<TIn
                 TUnion(<<TColl("list", TInt), TTuple(<<TInt, TStr>>)>>),
                 TUnion(<<TEnum("ES"), TStr, TNone>>), TUnion(<<TFloat, TStr>>),
                 TUnion(<<TUnion(<<TInt, TStr>>), TNone>>),
-                TUnion(<<TAnnot(TInt, << <<"min", 2>> >>), TAnnot(TInt, << <<"max", -2>> >>)>>) }
+                TUnion(<<TAnnot(TInt, << <<"min", 2>> >>), TAnnot(TInt, << <<"max", -2>> >>)>>),
+                \* an integer AND a number alternative, both able to reject an integer (by-type dispatch falls back from int to float)
+                TUnion(<<TAnnot(TInt, << <<"min", 2>> >>), TAnnot(TFloat, << <<"max", -2>> >>), TStr>>) }
               \cup UnsUnions
               \* constraints carried by the union itself (alternatives of pairwise distinct JSON types: by-type dispatch)
               \cup { TAnnot(TUnion(<<TInt, TStr>>), << <<"min", 0>>, <<"max_len", 1>> >>),
